@@ -30,8 +30,14 @@ class SpyLock:
         self.log.append("W")
         return GOOD
 
+    fail_unlock = False     # one-shot: the next unlock() raises LockBroken
+
     def unlock(self):
         self.log.append("U")
+        if self.fail_unlock:
+            from breezy import errors
+            self.fail_unlock = False
+            raise errors.LockBroken(self)
 
     def validate_token(self, token):
         from breezy import errors
@@ -113,6 +119,15 @@ def wrapper_step(obj, spy, m, op, ctx):
             ret = obj.lock_write(token=BAD)
         elif op == "u":
             obj.unlock()
+        elif op == "uf":
+            # the physical unlock fails (lock broken under us): whatever the
+            # wrapper reports, it no longer holds the lock afterwards and the
+            # next lock call is a first one again
+            spy.fail_unlock = True
+            try:
+                obj.unlock()
+            finally:
+                spy.fail_unlock = False
         elif op == "b":
             obj.break_lock()
         elif op == "q":
@@ -160,6 +175,15 @@ def wrapper_step(obj, spy, m, op, ctx):
             m.maxcount = 0
         else:
             m.count -= 1
+    elif op == "uf":
+        if m.count == 0:
+            want = (errors.LockNotHeld,)
+        elif m.count == 1:
+            m.log.append("U")
+            want = (errors.LockBroken,)
+            m.mode, m.count, m.phys, m.maxcount = None, 0, False, 0
+        else:
+            m.count -= 1
     elif op == "b":
         m.log.append("B")
         m.phys = False
@@ -171,6 +195,7 @@ def wrapper_step(obj, spy, m, op, ctx):
     what = "%s-%s" % (T, {"r": "lock_read", "w": "lock_write",
                           "wt": "lock_write-token",
                           "wx": "lock_write-wrong-token", "u": "unlock",
+                          "uf": "unlock-with-failing-physical-unlock",
                           "b": "break_lock", "q": "is_locked",
                           "p": "physical-status", "L": "leave_in_place",
                           "D": "dont_leave_in_place"}[op])
@@ -190,7 +215,7 @@ def wrapper_step(obj, spy, m, op, ctx):
         check(bool(ret) == m.phys, "C28/%s-wrong" % what, [ctx, ret])
     if spy.log != m.log:
         sig = "C28/%s-physical-lock-calls-differ" % what
-        if want is not None:
+        if want is not None and op != "uf":
             sig = "C28/%s-refused-but-physical-lock-touched" % what
         check(False, sig, [ctx, "".join(spy.log), "".join(m.log)])
     check(bool(obj.is_locked()) == (m.count > 0),
